@@ -1,9 +1,10 @@
-"""C02 — request parsing (claimed: header-table kernel only)."""
+"""C02 — request parsing: header-table kernel (engine K) + the parser on request templates (engine M)."""
 from ..kengine import H
 
 ID = "C02"
 MODULE = "c02"
-ENGINE = "K"
+ENGINE = "KM"
+TECHNIQUE = "header names and the header table: Kani/CBMC bounded model checking of the compiled code; the parser: symbolic execution of the MIR of Request::from_stream on well-formed request templates with symbolic holes -> z3, compared field by field with what the bytes denote; counterexamples replayed natively"
 
 NAMES = ["Accept", "Accept-Charset", "Accept-Encoding", "Accept-Language", "Access-Control-Request-Method", "Access-Control-Request-Headers",
          "Authorization", "Cache-Control", "Connection", "Content-Encoding", "Content-Length", "Content-Type", "Cookie", "Date", "Expect",
@@ -20,7 +21,8 @@ META = {
     "stubs": [],
     "assumes": ["custom names are printable ASCII without ':'"],
     "outside_bounds": [
-        "Request::from_stream as a whole: start line, query split, header line splitting, cookies, X-Forwarded-For, bodies, read segmentation, the serialise-then-parse round trip and the tokio parser — Kani cannot finish symbolic execution of the parser even on a concrete request (io::Error/dyn Error drop glue, BufReader, String building; DESIGN §2), so these clauses are NOT decided",
+        "engine K cannot finish symbolic execution of Request::from_stream even on a concrete request (io::Error/dyn Error drop glue, BufReader, String building; DESIGN §2): the parser is decided on engine M (see `request_parser`) for request TEMPLATES — concrete structure, symbolic path/query/version digit/header values/custom names/body bytes",
+        "NOT decided: cookies (get_cookies), X-Forwarded-For (Address::from_headers is modelled as `no such field`), read segmentation (BufReader is a model; the native validation varies it), non-ASCII header values, bodies above 64 bytes, the serialise-then-parse round trip (format!), the tokio parser (async)",
         "header tables with more than 3 entries; custom names longer than 3 bytes; non-ASCII header names",
     ],
 }
@@ -45,3 +47,72 @@ def harnesses():
     for h in hs:
         h.module = MODULE
     return hs
+
+
+def run(tier, run_k):
+    import json, os, time
+    from ..common import WORK, REPLAY_DIR, log, write_evidence
+    from . import c02_req
+    k = run_k()
+    t0, rc, cov, assumptions, nviol = k["t0"], k["rc"], k["cov"], k["assumptions"], k["violations"]
+    from mirsym.dump import dump_mir
+    work = os.path.join(WORK, ID)
+    try:
+        mir, dt = dump_mir("humphrey", work, features="verif")
+        d = c02_req.run_part(tier, work, mir)
+    except Exception as e:
+        log("UNDISCHARGED: request parser — %s" % str(e)[:500])
+        d = {"results": [], "violations": [], "machinery": [], "undischarged": [{"template": "all", "why": str(e)[:300]}], "validation": {}}
+    for r in d["violations"][:1]:
+        path = os.path.join(REPLAY_DIR, "C02-request.json")
+        os.makedirs(REPLAY_DIR, exist_ok=True)
+        with open(path, "w") as f:
+            json.dump({"property": ID, "engine": "M", "kind": "request", "replay": r["replay"], "how": "./check C02 --replay " + path}, f, indent=1)
+        log("VIOLATION property=%s replay=%s" % (ID, path))
+        rp = r["replay"]
+        log("   request %r" % rp["text"][:200])
+        log("   natively (dev / release): %s / %s" % (rp["native_dev"][:240], rp["native_release"][:240]))
+        log("   the bytes denote: %s   [failed: %s]" % (str(rp["expected"])[:240], rp["failed"][:160]))
+        rc = 1
+        nviol += 1
+    for m in d["machinery"]:
+        log("MACHINERY-ERROR: request parser — " + m[:600])
+        rc = rc or 2
+    for r in d["undischarged"][:6]:
+        log("UNDISCHARGED: request parser template %s — %s" % (r.get("template"), r.get("why")))
+    ok = [r for r in d["results"] if r["verdict"] == "unsat"]
+    log("   request parser (engine M): %d/%d templates discharged, %d paths, %d z3 checks, translator validation on %s requests" % (
+        len(ok), len(d["results"]), sum(r.get("paths", 0) for r in d["results"]), sum(r.get("n_checks", 0) for r in d["results"]), d["validation"].get("inputs")))
+    cov["evaluations"] += len(d["results"])
+    cov["distinct_nontrivial"] += len(ok)
+    cov["obligations"] = cov.get("obligations", 0) + len(d["results"])
+    cov["discharged"] = cov.get("discharged", 0) + len(ok)
+    cov["states"] = cov.get("states", 0) + sum(r.get("blocks", 0) for r in d["results"])
+    cov["transitions"] = cov.get("transitions", 0) + sum(r.get("n_checks", 0) for r in d["results"])
+    cov["traces_validated_against_impl"] = cov.get("traces_validated_against_impl", 0) + (d["validation"].get("inputs") or 0)
+    cov["solver_time_s"] = round(cov.get("solver_time_s", 0) + sum(r.get("solver_s", 0) for r in d["results"]), 2)
+    cov["request_parser"] = {
+        "functions_encoded": ["humphrey/src/http/request.rs: Request::{from_stream, from_stream_inner}, safe_assert, OptionToRequestResult::to_error",
+                              "humphrey/src/http/method.rs: Method::from_name", "humphrey/src/http/headers.rs: <HeaderType as From<&str>>::from, Headers::{new, add, get}, Header::new, derived PartialEq/Clone of HeaderType"],
+        "templates": {r["template"]: {k2: r.get(k2) for k2 in ("verdict", "paths", "n_checks", "wall_s", "why")} for r in d["results"]},
+        "bounds": "one obligation per template: all five methods; path 1..3 (thorough 12) characters of visible ASCII; query 0..3 (8) incl. '?'; HTTP/1.0 and 1.1; header values 1..4 (22) characters with 0..2 leading SP/HT, inner SP/HT and ':' allowed, last character not whitespace; known names in mixed case, repeated names, custom names of 2..4 (6) token characters; Content-Length bodies of 0, 2, 4 (64) arbitrary bytes, also followed by a second request",
+        "obligation": "for every value of the holes: Ok(Request) with the method, uri, query, version, the header list (each name typed as the listed variant iff equal ignoring ASCII case, else Custom(lower-cased); values with leading whitespace removed and the rest preserved; order preserved), the body bytes, and exactly the request's bytes consumed; the explored paths cover all hole values; no panic",
+        "std_models_trusted": sorted(set(m for r in d["results"] for m in r.get("models", [])))[:80],
+        "translator_validation": d["validation"],
+        "undischarged": d["undischarged"][:10],
+        "violations": [r["replay"] for r in d["violations"]][:3],
+    }
+    cov["functions_encoded"] = list(cov.get("functions_encoded", [])) + cov["request_parser"]["functions_encoded"]
+    cov.setdefault("engines", {})["mirsym"] = "own MIR symbolic executor (/verif/mirsym) + z3 5.1.0"
+    assumptions = assumptions + ["request parser: the BufReader/read_until/read_exact model over the scripted bytes, Address::from_headers modelled (no X-Forwarded-For in the templates), the listed std models; MIR text = compiled function (validated per run on concrete requests incl. malformed ones against the native parser under three read plans)"]
+    write_evidence(ID, tier, cov, assumptions, time.time() - t0, nviol)
+    log("== %s: %d/%d obligations discharged (K header kernel + M request parser), %d violation(s); %.0fs wall" % (ID, cov["discharged"], cov["obligations"], nviol, time.time() - t0))
+    return rc
+
+
+def replay(d, path):
+    from .. import mengine, kengine
+    from . import c02_req
+    mengine.setup(ID)
+    kengine.write_lists({})
+    return c02_req.replay(d, path)
